@@ -145,6 +145,11 @@ class Report:
             if found is not None:
                 self._failure(name, found["inputs"], found, known, match_known, solver_out=solver_out)
                 continue
+            # a failure already recorded as a known finding (identified by its obligation; these have no replay harness)
+            kf = [k for k in known if not k.get("witness_pred") and match_known(k, self.prop, name, None)]
+            if kf and r.status == "sat":
+                self._failure(name, None, None, known, match_known, solver_out=solver_out)
+                continue
             changed = self._changed_functions(base, d["lemma"])
             if name in base.get("groups", {}) and changed:
                 solver_out["changed_functions"] = changed
